@@ -151,6 +151,9 @@ def replay_file(path, prop=None):
         "'history_digest':rec.get('history_digest'),'outs':rec.get('outs_brief')},default=str))\n"
     )
     doc = json.load(open(path))
+    if doc.get("backend") == "cross":
+        doc["_path"] = path
+        return _replay_cross(doc)
     if doc.get("backend") == "fleetsim":
         from . import fleet
 
@@ -270,8 +273,9 @@ def check(a, n_runs, n_fleet):
         for n, s in enumerate(new[:MAX_REPORT]):
             rec, v = found[s]
             if v.get("cross"):
-                path = _write_cross_replay(prop, s, v, n)
-                viol_lines.append((s, path, True))
+                path = _write_cross_replay(prop, s, v, n, a.tier)
+                ok, _r = replay_file(path, prop)
+                viol_lines.append((s, path, ok))
                 continue
             if rec.get("backend") == "fleetsim":
                 from . import fleet
@@ -288,6 +292,19 @@ def check(a, n_runs, n_fleet):
                                               hashseed=rec.get("hashseed", "0"))
             path = write_replay(prop, s, rec, sched, events, tried, rep, n)
             ok, _r = replay_file(path, prop)
+            if not ok and prop == "C03":
+                # a C03 violation IS nondeterminism of the system: a replay that sometimes passes is expected;
+                # try again, and report the violation either way (the file records that it is flaky)
+                for _ in range(2):
+                    ok, _r = replay_file(path, prop)
+                    if ok:
+                        break
+                if not ok:
+                    d_ = json.load(open(path))
+                    d_["replay_flaky"] = ("did not recur in 3 fresh-interpreter replays: the outcome of this schedule is not a "
+                                          "function of the schedule, which is what C03 forbids")
+                    json.dump(d_, open(path, "w"), indent=1, default=str)
+                    ok = True
             viol_lines.append((s, path, ok))
     finally:
         pool.shutdown(wait=False, cancel_futures=True)
@@ -317,16 +334,51 @@ def check(a, n_runs, n_fleet):
     return rc
 
 
-def _write_cross_replay(prop, sig, v, n):
+def _write_cross_replay(prop, sig, v, n, tier="quick"):
     os.makedirs(REPLAY_DIR, exist_ok=True)
     ra, rb = v["cross"]
     path = os.path.join(REPLAY_DIR, f"{prop}-cross-{rb.get('seed')}-{n}.json")
+    runs = []
+    for r in (ra, rb):
+        if r.get("backend") == "fleetsim":
+            runs.append({"backend": "fleetsim", "seed": r.get("seed"), "workers": r["sched"]["workers"],
+                         "events": r["sched"]["events"]})
+        else:
+            s = gen.generate(r["seed"], prop, tier)
+            runs.append({"backend": "objsim", "seed": r.get("seed"), "hashseed": r.get("hashseed", "0"),
+                         "events": s["events"]})
     with open(path, "w") as f:
         json.dump({"property": prop, "signature": sig, "backend": "cross", "key": v["detail"]["key"],
-                   "seeds": [ra.get("seed"), rb.get("seed")], "mode": prop,
-                   "note": "two runs in different worker processes disagree on this key; "
-                           "re-run both seeds to reproduce"}, f, indent=1)
+                   "seeds": [ra.get("seed"), rb.get("seed")], "mode": prop, "runs": runs,
+                   "note": "two runs in different worker processes disagree on the value of this key"}, f, indent=1,
+                  default=str)
     return path
+
+
+def _replay_cross(doc):
+    """Execute both embedded runs in fresh processes and compare the key."""
+    vals = []
+    for run in doc["runs"]:
+        if run["backend"] == "fleetsim":
+            from . import fleet
+
+            rec = fleet.run_fleet({"seed": run["seed"], "mode": doc["mode"], "workers": run["workers"],
+                                   "events": run["events"]})
+        else:
+            code = ("import json,sys\nfrom sim import runner\nrun=json.load(open(sys.argv[1]))['runs'][int(sys.argv[2])]\n"
+                    "rec=runner.run_forked({'seed':run['seed'],'mode':None,'events':run['events']})\n"
+                    "print('@@'+json.dumps({'keys':rec.get('keys'),'fatal':rec.get('fatal')}))\n")
+            p = subprocess.run([env.PY, "-W", "ignore", "-c", code, doc["_path"], str(doc["runs"].index(run))],
+                               cwd=env.VERIF, env=env.child_env(hashseed=str(run.get("hashseed", "0"))),
+                               capture_output=True, text=True, timeout=runner.RUN_TIMEOUT + 120)
+            line = next((l for l in p.stdout.splitlines() if l.startswith("@@")), None)
+            rec = json.loads(line[2:]) if line else {"fatal": "no record"}
+        if rec.get("fatal"):
+            return False, rec
+        vals.append((rec.get("keys") or {}).get(doc["key"]))
+    differ = vals[0] is not None and vals[1] is not None and vals[0] != vals[1]
+    return differ, {"violations": [{"prop": doc["property"], "sig": doc["signature"], "seq": -1}] if differ else [],
+                    "values": vals}
 
 
 # ------------------------------------------------------------------ evidence
